@@ -11,7 +11,8 @@ def viewOfObs (o : Obs) : View :=
   { ret := o.ret, net := o.net, sj := o.sj, pj := o.pj,
     pdir := o.pd.isSome,
     arts := match o.pd with | some (a, _) => a | none => [],
-    junk := match o.pd with | some (_, j) => j | none => [] }
+    junk := match o.pd with | some (_, j) => j | none => [],
+    la := o.la }
 
 /-- Verdict: `none` = accepted; `some (step, reason)` = first rejection. -/
 abbrev Verdict := Option (Nat × String)
@@ -25,6 +26,7 @@ def judgeAll (env : Env) (libs : List (String × Bytes)) (tr : List (Op × Obs))
     ("C08", mon08.run env mon08.init 0 View.empty vt),
     ("C09", mon09.run env mon09.init 0 View.empty vt),
     ("C10", mon10.run env mon10.init 0 View.empty vt),
+    ("C12", mon12.run env mon12.init 0 View.empty vt),
     ("C13", mon13.run env mon13.init 0 View.empty vt),
     ("C14", mon14.run env mon14.init 0 View.empty vt),
     ("C17", mon17.run env mon17.init 0 View.empty vt),
